@@ -315,7 +315,9 @@ impl Report {
             known_hit: vec![],
             exhaustive: false,
             extra: BTreeMap::new(),
-            findings: load_findings().into_iter().filter(|f| f.property == id).collect(),
+            // entries with property "*" are defects recorded under one property whose panic site can be reached by
+            // the generators of any other property (same root cause, same signature)
+            findings: load_findings().into_iter().filter(|f| f.property == id || f.property == "*").collect(),
             sub_counts: BTreeMap::new(),
             start: std::time::Instant::now(),
         }
@@ -395,6 +397,11 @@ impl Report {
         }
         for k in &self.known_hit {
             println!("KNOWN-FINDING: property={} {}", self.id, k);
+        }
+        for f in self.findings.iter().filter(|f| f.property == "*" && f.status == "known") {
+            if self.excluded_known.get(&f.signature).copied().unwrap_or(0) > 0 {
+                println!("KNOWN-FINDING: property={} {} [{}]", self.id, f.what, f.signature);
+            }
         }
         println!(
             "{} {}: evaluations={} distinct_nontrivial={} violations={} wall={:.1}s",
@@ -735,7 +742,7 @@ pub fn replay_file(prop: Property, path: &str) -> i32 {
             0
         }
         Ok(Err(f)) => {
-            let known = load_findings().into_iter().any(|k| k.property == prop.id && k.status == "known" && k.signature == f.sig);
+            let known = load_findings().into_iter().any(|k| (k.property == prop.id || k.property == "*") && k.status == "known" && k.signature == f.sig);
             if known {
                 println!("KNOWN-FINDING: property={} [{}]", prop.id, f.sig);
                 println!("  detail: {}", f.detail);
